@@ -177,6 +177,7 @@ for _k, _fs in SHAPES.items():
 TRANSLATED = {
     'C01': ['determineExcludedURL', 'isUserAuthenticated', 'VerifyJWTSignatureAndClaims'],
     'C02': ['JWT.Verify', 'verifyIssuer', 'verifyAudience', 'verifyExpiration', 'verifyIssuedAt', 'verifyNotBefore', 'verifyTimeConstraint', 'VerifyJWTSignatureAndClaims'],
+    'C05': ['JWKCache.GetJWKS', 'JWKCache.Cleanup'],
     'C04': ['isUserAuthenticated', 'SessionData.SetAuthenticated', 'SessionData.GetAuthenticated'],
     'C06': ['isAllowedDomain', 'extractGroupsAndRoles', 'SessionData.SetEmail', 'SessionData.GetEmail'],
     'C03': ['SessionData.SetCSRF', 'SessionData.GetCSRF', 'SessionData.SetNonce', 'SessionData.GetNonce', 'SessionData.SetCodeVerifier', 'SessionData.GetCodeVerifier'],
